@@ -168,6 +168,7 @@ impl TypeChecker {
 
         // Check methods
         for method in &model.methods {
+            self.require_method_body(method, &model.name);
             self.check_method(&method.node, &model.name);
         }
 
@@ -408,6 +409,7 @@ impl TypeChecker {
 
         // Check methods
         for method in &class.methods {
+            self.require_method_body(method, &class.name);
             self.check_method(&method.node, &class.name);
         }
 
@@ -535,6 +537,7 @@ impl TypeChecker {
 
         // Check methods (reuse the standard method-checking logic so parameters are in scope).
         for method in &nt.methods {
+            self.require_method_body(method, &nt.name);
             if method.node.body.is_some() {
                 self.check_method(&method.node, &nt.name);
             }
@@ -585,6 +588,19 @@ impl TypeChecker {
 
         self.current_return_error_type = None;
         self.symbols.exit_scope();
+    }
+
+    /// Only a trait may declare a method without a body; on a model, class or newtype there is nothing to emit for it.
+    fn require_method_body(&mut self, method: &Spanned<MethodDecl>, owner: &str) {
+        if method.node.body.is_none() {
+            self.errors.push(CompileError::type_error(
+                format!(
+                    "Method '{}' of '{}' has no body (only trait methods may be declared without one)",
+                    method.node.name, owner
+                ),
+                method.span,
+            ));
+        }
     }
 
     pub(crate) fn check_method(&mut self, method: &MethodDecl, owner: &str) {
